@@ -4,7 +4,7 @@ C02 - aggregations return the stdlib result and never alter their inputs.
 
 from ..actors import ResultObject, World, ident, is_source_item, make_fault, FAULT_TYPES, LOGGING_FLAVOURS
 from ..runner import Outcome
-from ..tools import AGGS, draw_cfg, Gen, AGG_NAMES, ABSENT
+from ..tools import AGGS, draw_cfg, Gen, AGG_NAMES, ABSENT, lib
 from ..tooldiff import Run, drive_agg, ref_agg
 from .common import COMPONENTS_BASE, run_sim, new_sim, finish_outcome, spec_nontrivial
 
@@ -28,7 +28,7 @@ ASSUMPTIONS = [
     "for floats - an accuracy detail outside the property)",
     "str start for sum and explicit None for optional parameters are outside the input domain",
 ]
-PROBES = ("tie_present", "stdlib_raised", "empty_input_with_default", "key_used", "container_start")
+PROBES = ("tie_present", "stdlib_raised", "empty_input_with_default", "key_used", "container_start", "one_key_function_two_calls")
 
 
 def snapshot(spec, run):
@@ -84,8 +84,51 @@ def execute(st, ctx):
         spec._faults = fault
         sim.spawn(drive_agg(spec, run))
         tenants.append((spec, run, before))
+    shared = None
+    if ch.chance(1, 10):
+        # one callable object used as the key of two aggregations in a row: an ordinary function that returns awaitables
+        # during one of them and plain values during the other (what it returns is up to each call, not to its history)
+        import builtins
+        import heapq
+
+        g2 = Gen(ch, cfg, "k")
+        lists = [g2.items(ch.between(1, 5)), g2.items(ch.between(1, 5))]
+        which = [ch.draw(4), ch.draw(4)]
+        first_mode = ch.draw(2)
+        shared = {"got": [], "expected": [], "which": which, "awaitables_first": bool(first_mode),
+                  "items": [[repr(i) for i in l] for l in lists]}
+        mode = [first_mode]
+
+        async def _value(v):
+            return v
+
+        def key(item):
+            return _value(-item.key) if mode[0] else -item.key
+
+        def plain_key(item):
+            return -item.key
+
+        L = lib()
+        afns = (L.min, L.max, L.sorted, lambda it, key: L.heapq.nsmallest(it, 2, key=key))
+        rfns = (builtins.min, builtins.max, builtins.sorted, lambda it, key: heapq.nsmallest(2, it, key=key))
+
+        async def two_calls():
+            for n in (0, 1):
+                try:
+                    shared["got"].append(ident(await afns[which[n]](list(lists[n]), key=key)))
+                except Exception as err:
+                    shared["got"].append(("raised", type(err).__name__, str(err)[:80]))
+                shared["expected"].append(ident(rfns[which[n]](list(lists[n]), key=plain_key)))
+                mode[0] = 1 - mode[0]
+
+        sim.spawn(two_calls())
     run_sim(sim)
     nontrivial = False
+    if shared is not None and not (sim.capped or sim.deadlock):
+        out.probes["one_key_function_two_calls"] = 1
+        if shared["got"] != shared["expected"]:
+            out.violate("C02.callable_kind_remembered_between_calls", (("min", "max", "sorted", "nsmallest")[shared["which"][1]],),
+                        shared)
     for spec, run, before in tenants:
         if sim.capped or sim.deadlock:
             break
